@@ -139,7 +139,7 @@ SPEC = {
         "LEAN": {"modules": ["GfaProofs.C09", "GfaProofs.C05Edit"], "support": ["GfaModel.Graph", "GfaModel.Edit", "GfaProofs.Lemmas.Graph"],
                  "theorems": ["Gfa.C09.nodup_reachable", "Gfa.C05Edit.nodup_reachable", "Gfa.C05Edit.setTag_nodup", "Gfa.C05Edit.rmText_nodup", "Gfa.C05Edit.editTags_idTag", "Gfa.C09.step_nodup", "Gfa.C09.add_nodup", "Gfa.C09.rm_nodup",
                               "Gfa.C09.rename_nodup", "Gfa.C09.lookup_sound", "Gfa.C09.lookup_none", "Gfa.C09.lookup_complete",
-                              "Gfa.C09.rename_dup_raises", "Gfa.C09.add_dup_raises", "Gfa.C09.add_selfref_raises", "Gfa.C09.add_complement_noop",
+                              "Gfa.C09.rename_dup_raises", "Gfa.C09.add_dup_raises", "Gfa.C09.link_id_clash_characterised", "Gfa.C09.add_selfref_raises", "Gfa.C09.add_complement_noop",
                               "Gfa.C09.setName_name", "Gfa.G.renameIn_name"]},
         "ASSUMPTIONS": ["references are identifier-keyed in the model (object pointers in gfapy); equality of the two views is what the "
                         "correspondence compares after every step", "rename to the placeholder '*' is outside the model"],
